@@ -79,6 +79,8 @@ type vhScript struct {
 	reply    []byte // what the device sends
 	cuts     []int  // absolute chunk end positions, ascending; last == len(reply) (or the fault prefix)
 	pauses   []bool // pauses[i]: an empty deadline-exceeded read happens before chunk i
+	pauseEOF bool   // serial ports only: an elapsed read timeout is reported as (0, io.EOF), as some drivers do
+	withErr  []bool // withErr[i]: chunk i is handed out together with os.ErrDeadlineExceeded (n > 0 and an error)
 	paused   []bool
 	next     int // next chunk index
 	pos      int
@@ -123,6 +125,9 @@ func (s *vhScript) read(p []byte) (int, error) {
 	if s.next < len(s.cuts) {
 		if s.pauses[s.next] && !s.paused[s.next] {
 			s.paused[s.next] = true
+			if s.pauseEOF {
+				return s.record(p, 0, io.EOF)
+			}
 			return s.record(p, 0, os.ErrDeadlineExceeded)
 		}
 		end := s.cuts[s.next]
@@ -133,6 +138,9 @@ func (s *vhScript) read(p []byte) (int, error) {
 		}
 		copy(p, s.reply[s.pos:s.pos+n])
 		s.pos += n
+		if s.next-1 < len(s.withErr) && s.withErr[s.next-1] && n > 0 {
+			return s.record(p, n, os.ErrDeadlineExceeded)
+		}
 		return s.record(p, n, nil)
 	}
 	// the scripted prefix has been delivered
@@ -424,6 +432,9 @@ func vhFragmentation(s *vhScript, upTo int, E int, chunks int) {
 	for range s.cuts {
 		s.pauses = append(s.pauses, vndBool("pause"))
 		s.paused = append(s.paused, false)
+		// only the first chunk may arrive together with a deadline error (n > 0 and err != nil): one such read followed
+		// by further reads is what the io.Reader contract allows and what a loop could mishandle
+		s.withErr = append(s.withErr, len(s.withErr) == 0 && vndBool("chunkWithDeadlineError"))
 	}
 }
 
